@@ -29,7 +29,29 @@ for _pid, _tech, _fam, _ref in [
 ]:
     CLAIMED[_pid] = dict(technique=_tech, text=SANDWICH + " Family: " + _fam + ".", note=TRUST, ref="DESIGN.md §6 " + _ref)
 
-PENDING = "check not built yet in this round (framework in progress; see DESIGN.md §10 build order)"
+ENGINE = "Explore.tla (implementation-shaped spec of rt/path.rs and the Builder::check loop): (1) ExploreMC.tla runs it against lazily chosen abstract decision trees, TLC checks the engine invariants and every finished behaviour is replayed into the real rt::Path through loom::verif::PathDriver with a serde round trip after every step; (2) ExploreTrace.tla re-computes Path::step on the path snapshots the iteration hook recorded during real runs."
+for _pid, _tech, _txt in [
+    ("C12", "AtomicSeq.tla: W-bit register in limb arithmetic, TLC enumerates every (value, operation, operands) transition; sequences replayed on loom and std atomics (three-way)",
+     "TLC enumerates all transitions of the reference register over boundary operands for all 12 atomic types; every transition and random chains of them are executed on loom::sync::atomic inside a model and on std::sync::atomic; spec = std validates the spec, spec = loom is the property."),
+    ("C13", "ExploreTrace.tla validates the snapshot sequences of stopped and resumed runs; resume oracle from CheckLoop.tla/Explore.tla; ExploreMC behaviours replayed with a serde round trip at every step",
+     "Two uninterrupted runs must agree snapshot by snapshot; for every stop point k and interval c the resumed run (new process, loaded checkpoint) must replay iterations s..N of the uninterrupted run exactly; a checkpoint written before a failing iteration must fail first. " + ENGINE),
+    ("C14", "ExploreTrace.tla: each recorded step is Explore!StepPath of the previous snapshot, strict DFS order; TLC invariants NoRepeat/Terminates on abstract trees; replay into rt::Path",
+     "Every consecutive pair of recorded path snapshots of real runs must be the spec's DFS successor, decision sequences pairwise distinct, iteration count = number of paths, done only when nothing is left. " + ENGINE),
+    ("C15", "LoomSemTrace.tla counts preemptions independently on every recorded iteration (enabledness in the spec state); ExploreTrace.tla bounds every pushed schedule; set inclusions across bounds",
+     "For n in 0..6 (and n >= #ops): every iteration's independent preemption count <= n, loom_n subset-of loom_unbounded, monotone in n, equal at large n. " + ENGINE),
+    ("C17", "outcome soundness + trace validation against LoomSem's per-thread / per-execution static maps, init/drop counters in every outcome",
+     "TLC enumerates the reference outcomes of programs over 2 thread-locals and 2 lazy statics (one with a scheduling point inside its initialiser); every loom outcome incl. init/drop counters must be a reference outcome, every iteration validates from the spec's Init (re-initialisation), no causality panic on data published through a lazy static."),
+    ("C18", "outcome-set sandwich against LoomSem in which an await loop is one blocking read; Never variants must end at the branch limit",
+     "Lower(P) subset-of loom(P) subset-of Upper(P) on await programs, no branch-limit panic when the condition is established in every execution, branch-limit panic (not a hang, not a return) when it never is."),
+    ("C19", "ExploreTrace.tla (frozen non-exploring branches) + trace validation + subset checks for every region placement; CheckLoop.tla (TLC) gives the expected iteration counts for max_permutations/max_duration grids",
+     "stop_exploring/explore/skip_branch/expect_explicit_explore at every placement: subset of the unrestricted result set, every iteration valid, no Pending in a frozen branch; max_branches at need-1/need/need+2, max_threads below/at need, max_permutations x checkpoint_interval grid against CheckLoop.tla. " + ENGINE),
+    ("C20", "outcome/deadlock sandwich + trace validation against LoomSem's future layer (block_on loop over a Notify with one spurious return, AtomicWaker slot under its lock)",
+     "Programs with one blocked future (register-then-check and check-then-register) and 1-2 wakers: returned value and number of polls must be reference outcomes, deadlock reported iff reachable, no leak report."),
+]:
+    CLAIMED[_pid] = dict(technique=_tech, text=_txt, note=TRUST, ref="DESIGN.md §6 " + _pid,
+                         engine="Explore+pathdriver" if _pid in ("C13", "C14", "C15", "C19") else ("AtomicSeq replayer" if _pid == "C12" else "LoomSem+interpreter"))
+
+PENDING = "check not built yet (crash-point / isolation families in progress; see DESIGN.md §10 build order)"
 
 def main():
     props = [json.loads(l) for l in open("/verif/properties.jsonl")]
@@ -37,7 +59,7 @@ def main():
     hooks = [l.split()[0] for l in head if "verification hooks" in l or l.split(" ", 1)[1].startswith("hook:")]
     m = {
         "version": 1,
-        "setup_cmd": "cd /verif/harness && (test -f Cargo.lock || cp /repo/Cargo.lock .) && CARGO_NET_OFFLINE=true cargo build --release --offline && cd /verif/specs && for f in LoomSem MCSem LoomSemTrace; do tla-sany $f.tla >/dev/null || exit 1; done",
+        "setup_cmd": "cd /verif/harness && (test -f Cargo.lock || cp /repo/Cargo.lock .) && CARGO_NET_OFFLINE=true cargo build --release --offline && cd /verif/specs && for f in LoomSem LoomSemTrace Explore ExploreMC ExploreTrace CheckLoop AtomicSeq; do tla-sany $f.tla >/dev/null || exit 1; done",
         "hooks": {
             "guard": "cargo feature `verif` (implies `checkpoint`)",
             "enable": "harness/Cargo.toml: loom = { path = \"/repo\", features = [\"verif\", \"futures\"] }",
@@ -46,8 +68,12 @@ def main():
             "add_only": True,
         },
         "engines": [
-            {"name": "LoomSem+interpreter", "path": "specs/LoomSem.tla, harness/src/interp.rs, gen/",
-             "serves_properties": sorted(CLAIMED), "kind_free_text": "TLC enumeration of a reference semantics per program, compared with / validated against runs of the real loom::model on the same DSL program"},
+            {"name": "Explore+pathdriver", "path": "specs/Explore.tla, specs/ExploreMC.tla, specs/ExploreTrace.tla, specs/CheckLoop.tla, harness/src/bin/pathreplay.rs, gen/pathcheck.py, gen/enginecheck.py",
+             "serves_properties": ["C13", "C14", "C15", "C19"], "kind_free_text": "implementation-shaped TLA+ spec of the DFS engine, bound to rt::Path by replay (spec->impl) and by validation of recorded snapshots (impl->spec)"},
+            {"name": "AtomicSeq replayer", "path": "specs/AtomicSeq.tla, harness/src/bin/atomicseq.rs", "serves_properties": ["C12"],
+             "kind_free_text": "TLC-enumerated register transitions replayed on loom and std atomics"},
+            {"name": "LoomSem+interpreter", "path": "specs/LoomSem.tla, specs/LoomSemTrace.tla, harness/src/interp.rs, gen/",
+             "serves_properties": sorted(k for k in CLAIMED if k not in ("C12", "C13", "C14", "C19")), "kind_free_text": "TLC enumeration of a reference semantics per program, compared with / validated against runs of the real loom::model on the same DSL program"},
         ],
         "checks": [],
         "not_applicable": [],
